@@ -75,3 +75,11 @@ def register4(R, P):
     P["C12"] = {"targets": list(P["_names"]), "shards": {},
                 "trusted_base": ["SharedSpaceOperations._get_subs (networkx descendants / topological order) as the uninterpreted set subs(); namespace property modelled as a field equal to _namespace.fresh"],
                 "assumptions": ["add_bases conflict check, new_cells/rename guards, LazyEval refresh and dir() are covered by the bounded driver only"]}
+
+
+def register5(R, P):
+    P["C03"] = {"targets": ["SpaceManager.set_cells_property"], "shards": {},
+                "trusted_base": ["_get_subs (descendants in topological order), get_deriv_bases()[0] as the uninterpreted first_defined_base (C3 itself: bounded against CPython)",
+                                 "UserCellsImpl.on_set_property through its call-site view (applied once; flag set): proved separately under C09",
+                                 "Formula construction may raise and has no effect on the model; clear_subs_rootitems does not touch cells flags"],
+                "assumptions": ["UserSpaceImpl.on_inherit, SpaceUpdater scheduling, new_cells/new_ref/change_ref/rename_cells propagation, get_mro: bounded driver only"]}
